@@ -13,7 +13,7 @@ for id in $IDS; do
   out=$(./check "$prop" --tier quick --no-evidence 2>&1); code=$?
   git -C /repo apply -R "$HERE/$d/patch.diff"
   [ -n "$(git -C /repo status --porcelain --untracked-files=no)" ] && { echo "harness error: could not undo $id"; exit 2; }
-  ids=$(echo "$out" | grep -E '^  T' | sed 's/^  //' | cut -d: -f1-6 | cut -c1-140 | head -3 | tr '\n' '|')
+  ids=$(echo "$out" | grep -a -E '^  T' | sed 's/^  //' | cut -d: -f1-6 | cut -c1-140 | head -3 | tr '\n' '|')
   if [ $code -eq 1 ]; then echo "$id $prop DETECTED exit=1 :: $ids"; elif [ $code -eq 0 ]; then echo "$id $prop MISSED exit=0"; else echo "$id $prop HARNESS-ERROR exit=$code :: $(echo "$out" | tail -3 | tr '\n' '|')"; fi
 done
 # leave the harness built against the unchanged tree again
